@@ -48,6 +48,9 @@ type vectorSelector struct {
 
 	shard     int
 	numShards int
+
+	// selectTimestamps makes the selector yield sample timestamps instead of values.
+	selectTimestamps bool
 }
 
 // NewVectorSelector creates operator which selects vector of series.
@@ -72,6 +75,8 @@ func NewVectorSelector(
 
 		shard:     shard,
 		numShards: numShards,
+
+		selectTimestamps: queryOpts.SelectTimestamps,
 	}
 }
 
@@ -122,11 +127,14 @@ func (o *vectorSelector) Next(ctx context.Context) ([]model.StepVector, error) {
 			if len(vectors) <= currStep {
 				vectors = append(vectors, o.vectorPool.GetStepVector(seriesTs))
 			}
-			_, v, ok, err := selectPoint(series.samples, seriesTs, o.lookbackDelta, o.offset)
+			t, v, ok, err := selectPoint(series.samples, seriesTs, o.lookbackDelta, o.offset)
 			if err != nil {
 				return nil, err
 			}
 			if ok {
+				if o.selectTimestamps {
+					v = float64(t)
+				}
 				vectors[currStep].SampleIDs = append(vectors[currStep].SampleIDs, series.signature)
 				vectors[currStep].Samples = append(vectors[currStep].Samples, v)
 			}
